@@ -3,7 +3,7 @@ use super::*;
 use crate::choose::{Canon, Rng};
 use std::collections::BTreeSet;
 
-pub struct Vocab { pub classes: Vec<Vec<String>>, pub ord_class: usize, pub zero_class: usize, pub zeros: Vec<&'static str>, pub number_words: Vec<String>, pub linking: Vec<&'static str>, pub fillers: Vec<&'static str>, pub conj: &'static str, pub sep: &'static str, pub conj_alts: Vec<&'static str>, pub common: Vec<&'static str>, pub srcdict: Vec<&'static str> }
+pub struct Vocab { pub classes: Vec<Vec<String>>, pub ord_class: usize, pub zero_class: usize, pub zeros: Vec<&'static str>, pub number_words: Vec<String>, pub linking: Vec<&'static str>, pub fillers: Vec<&'static str>, pub conj: &'static str, pub sep: &'static str, pub conj_alts: Vec<&'static str>, pub common: Vec<&'static str>, pub srcdict: Vec<&'static str>, pub phrases: Vec<Vec<&'static str>> }
 
 pub fn linking(lang: &str) -> Vec<&'static str> {
     match lang {
@@ -107,7 +107,7 @@ pub fn vocab(lang: &str) -> Vocab {
     }
     set.insert(conjunction(lang).to_string()); set.insert(decimal_sep(lang).to_string()); set.insert(zero_word(lang).to_string());
     if lang == "en" { set.insert("o".into()); }
-    Vocab { classes, ord_class: 5, zero_class: 6, zeros, number_words: set.into_iter().collect(), linking: linking(lang), fillers: fillers(lang), conj: conjunction(lang), sep: decimal_sep(lang), common: vec![], srcdict: vec![], conj_alts: if lang == "nl" { vec!["en", "ën"] } else { vec![conjunction(lang)] } }
+    Vocab { classes, ord_class: 5, zero_class: 6, zeros, number_words: set.into_iter().collect(), linking: linking(lang), fillers: fillers(lang), conj: conjunction(lang), sep: decimal_sep(lang), common: vec![], srcdict: vec![], phrases: vec![], conj_alts: if lang == "nl" { vec!["en", "ën"] } else { vec![conjunction(lang)] } }
 }
 pub const PUNCT: [&str; 16] = [",", ".", ";", ":", "!", "?", "-", "—", "'", "(", ")", "…", "...", "/", "\u{200b}", "\u{2060}"];
 pub const SPACES: [&str; 8] = [" ", " ", " ", "  ", "\t", "\n", "\u{a0}", "\u{2009}"];
